@@ -312,8 +312,9 @@ let op_gcc args =
      | Err e -> "err:" ^ err_name e | Panic -> "panic" | Spin -> "spin")
   | ["ccore"; w; h; layout; proto; name] ->
     let name = unhex_ints name in
-    let name = if List.length name >= 16 then List.filteri (fun k _ -> k < 16) name
-               else name @ List.init (16 - List.length name) (fun _ -> 0) in
+    (* at most 15 UTF-16 code units followed by the null terminator (the repaired client_core_data) *)
+    let name = List.filteri (fun k _ -> k < 15) name in
+    let name = name @ List.init (16 - List.length name) (fun _ -> 0) in
     let name16 = List.concat_map (fun c -> [n_of_int c; N0]) name in
     let lay = n_of_int (if layout = "fr" then 0x40c else 0x409) in
     let m = client_core_data (n_of_int 524292) (num w) (num h) lay name16 (num proto) in
